@@ -48,6 +48,51 @@ if not set(case_args).isdisjoint(combo_args):
 fn_args = case_args + combo_args
 '''
 
+EXECUTORS = '''
+def _submit(executor, fn, *args, **kwds):
+    if isinstance(executor, multiprocessing.pool.Pool):
+        return executor.apply_async(fn, args, kwds)
+    elif hasattr(executor, "submit"):
+        return executor.submit(fn, *args, **kwds)
+    elif hasattr(executor, "apply_async"):
+        return executor.apply_async(fn, *args, **kwds)
+    else:
+        raise TypeError("The executor supplied, {}, does not have a ``submit`` or ``apply_async`` method.".format(executor))
+
+
+def _get_result(future):
+    if hasattr(future, "result"):
+        return future.result()
+    if hasattr(future, "get"):
+        return future.get()
+    raise TypeError("Future does not have a `result` or `get` method.")
+
+
+def _run_linear_executor(executor, fn, settings, verbosity=1):
+    with progbar(total=len(settings), disable=verbosity <= 0) as pbar:
+        if verbosity >= 2:
+            pbar.set_description("Submitting to executor...")
+        futures = [_submit(executor, fn, **kws) for kws in settings]
+        results_linear = []
+        for kws, future in zip(settings, futures):
+            if verbosity >= 2:
+                pbar.set_description(str(kws))
+            results_linear.append(_get_result(future))
+            pbar.update()
+        return results_linear
+
+
+def _run_linear_sequential(fn, settings, verbosity=1):
+    results_linear = []
+    with progbar(total=len(settings), disable=verbosity <= 0) as pbar:
+        for kws in settings:
+            if verbosity >= 2:
+                pbar.set_description(str(kws))
+            results_linear.append(fn(**kws))
+            pbar.update()
+        return results_linear
+'''
+
 DUPCHECK = '''
 def check_for_duplicates(arg, values):
     if values is Ellipsis:
@@ -211,6 +256,18 @@ def generate(repo):
         k = next(i for i, (a, b) in enumerate(zip(got, [norm(x) for x in want_pro])) if a != b)
         raise Refused(body[k], "prologue of combo_runner_core differs from the transcription")
     out += ["Definition gen_prologue_is_transcribed : bool := true.", ""]
+    # the two ways a list of settings is run: every setting is submitted / called once with ITS kwargs, and the
+    # results are collected in the order of the settings (futures zipped with the settings they were made for)
+    def strip_doc(f):
+        f = ast.parse(ast.unparse(f)).body[0]
+        if f.body and isinstance(f.body[0], ast.Expr) and isinstance(f.body[0].value, ast.Constant):
+            f.body = f.body[1:]
+        return norm(f)
+    for wf in ast.parse(EXECUTORS).body:
+        got = find_function(tree, wf.name)
+        if strip_doc(got) != strip_doc(wf):
+            raise Refused(got, f"{wf.name} differs from the transcription")
+    out += ["Definition gen_linear_runners_are_transcribed : bool := true.", ""]
 
     # ---- prepare.py: a value that EQUALS an earlier value of the same argument is refused (the results are
     #      keyed by value, so equal values would share one slot), for every argument of the grid
